@@ -41,9 +41,25 @@ def budget_stress_specs(ctx):
     return specs
 
 
+def other_base_specs(ctx):
+    """poll_mesh_multiplier other than 2 (a documented advanced option): the mesh is then a power of that base, and so must be the internal mesh
+    tolerance derived from tol_mesh; runs long enough to stop on the mesh tolerance."""
+    from .. import gen
+    rng = ctx.sub_rng("c03base")
+    specs = []
+    for mult, mode in (((1.5, "det"), (2.0 ** 0.5, "det"), (4.0, "det")) if ctx.quick else
+                       ((1.5, "det"), (2.0 ** 0.5, "det"), (4.0, "det"), (1.5, "decl"), (3.0, "det"), (1.25, "det"), (1.5, "auto"), (2.5, "det"))):
+        sp = gen.make_spec(rng, D=rng.choice([1, 2]), geom=rng.choice(["box", "tight"]), mode=mode, cons=None, opt_loc="inside", target=rng.choice(["quad", "abs"]))
+        sp["options"] = {"n_search": 32, "poll_mesh_multiplier": mult, "tol_mesh": rng.choice([1e-3, 1e-2, 5e-4]), "tol_stall_iters": 60,
+                         "max_fun_evals": 260 if mode == "det" else 320, "noise_final_samples": 0}
+        specs.append(sp)
+    return specs
+
+
 def run(ctx):
     rep = Report()
     if ctx.pid == "C03":
+        runlevel.with_extra(ctx, "c03base", lambda: other_base_specs(ctx))
         runlevel.with_extra(ctx, "c03stress", lambda: budget_stress_specs(ctx))
         runlevel.scripted_controller_runs(ctx, "c03script", 12 if ctx.quick else 120)
     stats, samples = runlevel.ctl_replay(ctx, rep, ctx.pid)
